@@ -60,6 +60,11 @@ class Probe:
     def __call__(self, origin, target, params, state):
         self.n += 1
         seen = dict(params)
+        if self.mutate and self.n % 3 == 0:
+            # a speed / power ramp: the hook decides the F and S words of this move
+            params["F"] = float(600 + 10 * (self.n % 7))
+            if self.n % 2 == 0:
+                params["S"] = float(100 + self.n % 5)
         if self.mutate == "copy":
             # a hook may return a NEW mapping instead of mutating the one it was given
             params = ParamsDict({**params, "Q": float(self.n)})
@@ -206,6 +211,14 @@ def run_case(ctx, col, case):
         # remembered afterwards
         if g1:
             final = lcalls[-1][3]
+            # ... F and S also by the state's own fields (what later commands and hooks rely on)
+            for word, field in (("F", "feed_rate"), ("S", "tool_power")):
+                if final.get(word) is not None:
+                    col.count("hook_written_F_S_checked")
+                    if float(getattr(g.state, field)) != float(final[word]):
+                        return fail("state-field-differs-from-hook-written-word", word=word,
+                                    hook_value=final[word], state_value=getattr(g.state, field),
+                                    mech=f"c20:state.{field}")
             for k, v in final.items():
                 if k in ("X", "Y", "Z") or v is None:
                     continue
